@@ -597,6 +597,7 @@ func (vc *FnVC) doTypeAssert(x *ssa.TypeAssert) {
 		okv := vc.define(x.Name()+"ok", SBool, test)
 		res := vc.define(x.Name()+"v", k, sIte(okv, payload, vc.sorts.zero(x.AssertedType)))
 		vc.tuples[x] = []Val{{res, x.AssertedType, k}, {okv, types.Typ[types.Bool], SBool}}
+		vc.assume(vc.typeFacts(Val{res, x.AssertedType, k}))
 		vc.assumeTypeInv(Val{res, x.AssertedType, k}, false)
 		return
 	}
